@@ -39,6 +39,9 @@ type apiCase struct {
 	// fault arm: the FaultAt-th write system call on a WAL file fails (EIO, or a short write of Short bytes); -1 = none
 	FaultAt int `json:"fault_at"`
 	Short   int `json:"short,omitempty"`
+	// EnableDirectIOWAL without EnableAsyncWAL: WriteSync is unsupported with direct I/O, so every mutation returns an
+	// error by design - and must then have no effect either
+	DirectSync bool `json:"direct_sync,omitempty"`
 }
 
 var apiKeys = []string{"", "a", "b", "k\xff\xfe\x00z", "a\x00", strings.Repeat("K", 3000), "ab"}
@@ -106,8 +109,14 @@ func errClass(err error) string {
 	return "error"
 }
 
+var apiDirectSync bool
+
 func apiOpen(dir string, mem uint64) (*simpledb.DB, error) {
-	db, err := simpledb.NewSimpleDB(dir, simpledb.MemstoreSizeBytes(mem), simpledb.CompactionRunInterval(time.Hour))
+	opts := []simpledb.ExtraOption{simpledb.MemstoreSizeBytes(mem), simpledb.CompactionRunInterval(time.Hour)}
+	if apiDirectSync {
+		opts = append(opts, simpledb.EnableDirectIOWAL())
+	}
+	db, err := simpledb.NewSimpleDB(dir, opts...)
 	if err != nil {
 		return nil, err
 	}
@@ -244,6 +253,8 @@ func runAPIFaultCase(c *Ctx, ac apiCase, tape *simrt.Tape) (vs []apiViolation, e
 }
 
 func runAPICase(c *Ctx, ac apiCase, tape *simrt.Tape, count bool) (vs []apiViolation, evals int, imgs []string) {
+	apiDirectSync = ac.DirectSync
+	defer func() { apiDirectSync = false }()
 	if ac.FaultAt >= 0 {
 		v, e, _ := runAPIFaultCase(c, ac, tape)
 		return v, e, nil
@@ -322,7 +333,7 @@ func runAPICase(c *Ctx, ac apiCase, tape *simrt.Tape, count bool) (vs []apiViola
 					closeBoth()
 					return
 				}
-				if k != "" && v != "" && eB != nil {
+				if k != "" && v != "" && eB != nil && !ac.DirectSync {
 					add("api-error|put:"+normErr(eB), fmt.Sprintf("%s: a valid call failed: %v", desc, eB))
 					closeBoth()
 					return
@@ -342,7 +353,7 @@ func runAPICase(c *Ctx, ac apiCase, tape *simrt.Tape, count bool) (vs []apiViola
 					closeBoth()
 					return
 				}
-				if k != "" && eB != nil {
+				if k != "" && eB != nil && !ac.DirectSync {
 					add("api-error|delete:"+normErr(eB), fmt.Sprintf("%s: a valid call failed: %v", desc, eB))
 					closeBoth()
 					return
@@ -475,6 +486,9 @@ func apisimMain(c *Ctx) {
 		seed := c.RunSeed(i)
 		r := rand.New(rand.NewSource(seed))
 		ac := apiGen(r, c.Thorough())
+		if c.Mode != "fault" && r.Intn(10) == 0 {
+			ac.DirectSync = true
+		}
 		if c.Mode == "fault" {
 			ac.FaultAt = r.Intn(2 * len(ac.Ops))
 			if r.Intn(3) == 0 {
